@@ -318,8 +318,12 @@ def record_run(run: dict, mutate=None):
     rng = random.Random(run["seed"])
     nrng = np.random.default_rng(run["seed"])
     torch.manual_seed(run["seed"])
+    # a third of the runs build the neuron with another step time and assign the run's one through the dt setter
+    dt_built = None
+    if run["seed"] % 3 == 0:
+        dt_built = run["D"] * run["tick"] * (2.0 if run["seed"] % 2 else 0.5)
     probe = NeuronProbe(run["cls"], run["shape"], run["batch"], run["D"], run["R"], run["tick"], run["lock"],
-                        run["adapt"], RECIPES[run["cls"]][run["recipe"]], run["lax"])
+                        run["adapt"], RECIPES[run["cls"]][run["recipe"]], run["lax"], dt_built=dt_built)
     if run["adapt"]:
         probe.n.train()
     init = probe.init_state()
